@@ -448,10 +448,11 @@ func TestVfC14Saturated(t *testing.T) {
 			}
 		}
 		// the transport is usable again once the server has handed the stream credit back (a MAX_STREAMS frame that
-		// follows the closed streams after a round trip): allow 2 s for that, then it counts as wedged
+		// follows the closed streams after a round trip - seconds on a machine that is busy with other checks): allow 15 s for
+		// that, then it counts as wedged (a wedged transport stays wedged, so the bound costs nothing in sensitivity)
 		var ok2 bool
 		var err2 error
-		for until := time.Now().Add(2 * time.Second); ; {
+		for until := time.Now().Add(15 * time.Second); ; {
 			ctx2, c2 := context.WithTimeout(context.Background(), 3*time.Second)
 			ok2, err2, _ = vfExchange(u, ctx2, 9, "after.c14")
 			c2()
@@ -461,7 +462,7 @@ func TestVfC14Saturated(t *testing.T) {
 			time.Sleep(20 * time.Millisecond)
 		}
 		if !ok2 {
-			t.Fatalf("%s: no exchange succeeded within 2 s after the saturation was released (%d blockers, credit %d): %v", kind, b, credit, err2)
+			t.Fatalf("%s: no exchange succeeded within 15 s after the saturation was released (%d blockers, credit %d): %v", kind, b, credit, err2)
 		}
 		nontrivial := b >= 2
 		if credit > 0 {
